@@ -231,6 +231,18 @@ func segmentations(r *Rand, msgs []pgwire.FMsg, n int) [][]int {
 	return out
 }
 
+func hasEmptyRead(c *Case) bool {
+	if len(c.Conns) == 0 {
+		return false
+	}
+	for _, f := range c.Conns[0].Faults {
+		if f.Kind == "empty-read" {
+			return true
+		}
+	}
+	return false
+}
+
 func stripTails(c *Case) *Case {
 	cp := c.Clone()
 	for ci := range cp.Conns {
@@ -251,7 +263,19 @@ func checkC03(x *Exec, c *Case) ([]Violation, bool) {
 		x.Stats.Runs++
 		return accessorCheck(c), true
 	}
-	// reference run: as generated
+	// reference run: as generated, but without empty reads (a replayed case may
+	// carry the empty read that made a difference; it is then run as a variant)
+	given := c
+	if hasEmptyRead(c) {
+		c = c.Clone()
+		var keep []Fault
+		for _, f := range c.Conns[0].Faults {
+			if f.Kind != "empty-read" {
+				keep = append(keep, f)
+			}
+		}
+		c.Conns[0].Faults = keep
+	}
 	viol, r0, _ := modelCheck("C03", x, c)
 	if len(r0.Conns) == 0 {
 		return viol, false
@@ -281,6 +305,45 @@ func checkC03(x *Exec, c *Case) ([]Violation, bool) {
 			break
 		}
 	}
+	// a legal empty read (0 bytes, no error) at a few positions must not change
+	// anything either
+	if len(viol) == 0 {
+		nreads := ref.reads
+		for k := 0; k < 5 && nreads > 0; k++ {
+			v := c.Clone()
+			at := r.Intn(nreads*3 + 2)
+			if k == 4 {
+				if given == c {
+					break
+				}
+				v = given.Clone() // the replayed variant itself
+				at = -1
+			} else {
+				switch k % 2 {
+				case 0:
+					v.Conns[0].Cuts = []int{1}
+				case 1:
+					v.Conns[0].Cuts = segs[6%len(segs)]
+				}
+				v.Conns[0].Faults = append(v.Conns[0].Faults, Fault{Kind: "empty-read", At: at})
+			}
+			rv := x.Run(v)
+			cs := rv.Conns[0]
+			if cs.EmptyReads == 0 {
+				continue
+			}
+			x.Probe("empty_read_delivered")
+			t := Canonical(ParseOut(cs).Msgs)
+			ev := CallbackTrace(cs)
+			if t != refT || ev != refEv || cs.Closed == 0 {
+				*given = *v
+				viol = append(viol, Violation{Prop: "C03", Rule: "empty-read-dependence", Sig: "empty-read-dependence",
+					Detail: fmt.Sprintf("a read that returns 0 bytes without error (read #%d, cuts %v) changes the outcome:\n  reference: %s | %s\n  with it:   %s | %s", at, v.Conns[0].Cuts,
+						trunc(pgwire.Kinds(ParseOut(ref).Msgs), 80), trunc(strings.ReplaceAll(refEv, "\n", "; "), 120), trunc(pgwire.Kinds(ParseOut(cs).Msgs), 80), trunc(strings.ReplaceAll(ev, "\n", "; "), 120))})
+				return viol, true
+			}
+		}
+	}
 	// exact consumption: the same session without the grammar-external surplus
 	// bytes inside messages must give the same transcript and callback trace
 	hasTail := false
@@ -303,7 +366,7 @@ func checkC03(x *Exec, c *Case) ([]Violation, bool) {
 func init() {
 	register(&Prop{
 		ID: "C03", Level: "exploration", QuickS: 25, ThoroughS: 420,
-		Rule:        "seeded client byte streams (valid sessions of every phase incl. SSLRequest->N, COPY, oversized messages; messages carrying grammar-external surplus bytes: Parse with parameter OIDs, Execute/Sync/Flush/Query/Describe/Close/Bind with trailing junk; a truncated or mis-sized final message) each run under its generated segmentation and then under: all at once, one byte per read, cuts inside every 5-byte header ({2,3},{4,1},{5},{6,1,1}), a cut at every message boundary and 3 seeded cut lists; canonical transcript, output length and callback trace must be identical across all of them, and equal to the run with the surplus bytes removed; accessor clause: buffer.Reader driven directly over the segmenting reader with a generated message body followed by a canary message, a random sequence of GetString/GetBytes(n>=0)/GetUint16/GetUint32/GetPrepareType compared call by call with an independent cursor (no panic, errors exactly on short/unterminated data, canary message intact afterwards); every case counts as non-trivial (each is a differential over >= 9 segmentations); distinct = distinct case content hashes",
+		Rule:        "seeded client byte streams (valid sessions of every phase incl. SSLRequest->N, COPY, oversized messages; messages carrying grammar-external surplus bytes: Parse with parameter OIDs, Execute/Sync/Flush/Query/Describe/Close/Bind with trailing junk; a truncated or mis-sized final message) each run under its generated segmentation and then under: all at once, one byte per read, cuts inside every 5-byte header ({2,3},{4,1},{5},{6,1,1}), a cut at every message boundary and 3 seeded cut lists, plus four runs with one legal empty read (0 bytes, no error) at a seeded read index; canonical transcript, output length and callback trace must be identical across all of them, and equal to the run with the surplus bytes removed; accessor clause: buffer.Reader driven directly over the segmenting reader with a generated message body followed by a canary message, a random sequence of GetString/GetBytes(n>=0)/GetUint16/GetUint32/GetPrepareType compared call by call with an independent cursor (no panic, errors exactly on short/unterminated data, canary message intact afterwards); every case counts as non-trivial (each is a differential over >= 9 segmentations); distinct = distinct case content hashes",
 		Components:  append(append([]string{}, e1Components...), "accessor clause: real pkg/buffer.Reader over a stub segmenting io.Reader (input generation riding on the simulated transport)"),
 		Assumptions: commonAssumptions,
 		Gen: func(r *Rand, tier string) *Case {
